@@ -48,6 +48,13 @@ class OtherToken:
         return "<other>"
 
 
+class AIter:
+    """a stateful iterator over a list (for `it = iter(xs); a = next(it); b = next(it)`)"""
+    def __init__(self, items):
+        self.items = list(items)
+        self.pos = 0
+
+
 class _Return(Exception):
     def __init__(self, v):
         self.v = v
@@ -84,12 +91,38 @@ class DictInterp:
                 else:
                     out.data[self.ev(k)] = self.ev(v)
             return out
-        if isinstance(e, ast.Tuple):
-            return tuple(self.ev(x) for x in e.elts)
+        if isinstance(e, (ast.Tuple, ast.List)):
+            out_ = []
+            for x in e.elts:
+                if isinstance(x, ast.Starred):
+                    v_ = self.ev(x.value)
+                    out_.extend(v_.items[v_.pos:] if isinstance(v_, AIter) else list(v_))
+                else:
+                    out_.append(self.ev(x))
+            return tuple(out_) if isinstance(e, ast.Tuple) else out_
+        if isinstance(e, ast.Attribute) and ast.unparse(e) in self.env:
+            return self.env[ast.unparse(e)]
+        if isinstance(e, ast.BinOp) and isinstance(e.op, (ast.Add, ast.Sub)) and not (isinstance(e.left, ast.Constant) and isinstance(e.left.value, str)):
+            l_, r_ = self.ev(e.left), self.ev(e.right)
+            if isinstance(l_, (list, tuple)) and isinstance(r_, (list, tuple)) and isinstance(e.op, ast.Add):
+                return type(l_)(list(l_) + list(r_))
+            if isinstance(l_, int) and isinstance(r_, int) and not isinstance(l_, bool):
+                return l_ + r_ if isinstance(e.op, ast.Add) else l_ - r_
+            raise Unsupported(ast.unparse(e)[:60])
+        if isinstance(e, ast.UnaryOp) and isinstance(e.op, ast.USub):
+            v_ = self.ev(e.operand)
+            if isinstance(v_, int):
+                return -v_
+            raise Unsupported(ast.unparse(e)[:60])
         if isinstance(e, ast.IfExp):
             return self.ev(e.body) if self.truth(e.test) else self.ev(e.orelse)
         if isinstance(e, (ast.Compare, ast.BoolOp)) or (isinstance(e, ast.UnaryOp) and isinstance(e.op, ast.Not)):
             return self.truth(e)
+        if isinstance(e, ast.Slice):
+            b_ = [self.ev(x) if x is not None else None for x in (e.lower, e.upper, e.step)]
+            if not all(x is None or isinstance(x, int) for x in b_):
+                raise Unsupported("slice bounds")
+            return slice(*b_)
         if isinstance(e, ast.Subscript):
             d, k = self.ev(e.value), self.ev(e.slice)
             if isinstance(d, ADict):
@@ -100,6 +133,8 @@ class DictInterp:
                 if -len(d) <= k < len(d):
                     return d[k]
                 raise Raised("IndexError")
+            if isinstance(d, (list, tuple)) and isinstance(k, slice):
+                return d[k]
             raise Unsupported(ast.unparse(e))
         if isinstance(e, ast.BinOp) and isinstance(e.op, ast.Mod) and isinstance(e.left, ast.Constant) and isinstance(e.left.value, str):
             return "<message>"
@@ -171,10 +206,12 @@ class DictInterp:
         if fn in ("RuntimeError", "ValueError", "KeyError", "TypeError", "NotImplementedError"):
             return ("exc", fn)
         if fn == "iter" and len(args) == 1:
-            return list(args[0].data) if isinstance(args[0], ADict) else list(args[0])
-        if fn == "next" and 1 <= len(args) <= 2 and isinstance(args[0], list):
-            if args[0]:
-                return args[0][0]
+            return AIter(list(args[0].data) if isinstance(args[0], ADict) else list(args[0]))
+        if fn == "next" and 1 <= len(args) <= 2 and isinstance(args[0], (AIter, list)):
+            it_ = args[0] if isinstance(args[0], AIter) else AIter(args[0])
+            if it_.pos < len(it_.items):
+                it_.pos += 1
+                return it_.items[it_.pos - 1]
             if len(args) == 2:
                 return args[1]
             raise Raised("StopIteration")
@@ -275,9 +312,13 @@ class DictInterp:
     def bind(self, t, v):
         if isinstance(t, ast.Name):
             self.env[t.id] = v
-        elif isinstance(t, (ast.Tuple, ast.List)) and isinstance(v, (tuple, list)) and len(t.elts) == len(v):
+        elif isinstance(t, (ast.Tuple, ast.List)) and isinstance(v, (tuple, list)) and not any(isinstance(x, ast.Starred) for x in t.elts):
+            if len(t.elts) != len(v):
+                raise Raised("ValueError: cannot unpack %d values into %d names" % (len(v), len(t.elts)))
             for tt, vv in zip(t.elts, v):
                 self.bind(tt, vv)
+        elif isinstance(t, ast.Attribute):
+            self.env[ast.unparse(t)] = v
         elif isinstance(t, ast.Subscript):
             d, k = self.ev(t.value), self.ev(t.slice)
             if not isinstance(d, ADict):
